@@ -2197,9 +2197,6 @@ func (a *Association) handleInitAck(pkt *packet, initChunkAck *chunkInitAck) err
 	a.log.Tracef("[%s] updated cwnd=%d ssthresh=%d inflight=%d (INI)",
 		a.name, a.CWND(), a.ssthresh, a.inflightQueue.getNumBytes())
 
-	a.t1Init.stop()
-	a.storedInit = nil
-
 	a.peerInterleaving = false
 	a.peerForwardTSN = false
 	a.peerIForwardTSN = false
@@ -2235,8 +2232,13 @@ func (a *Association) handleInitAck(pkt *packet, initChunkAck *chunkInitAck) err
 		a.log.Warnf("[%s] not using ForwardTSN (on initAck)", a.name)
 	}
 	if cookieParam == nil {
+		// Keep T1-init running: without a cookie the handshake cannot proceed, and
+		// stopping the timer here would leave the connect call blocked forever.
 		return ErrInitAckNoCookie
 	}
+
+	a.t1Init.stop()
+	a.storedInit = nil
 
 	a.storedCookieEcho = &chunkCookieEcho{}
 	a.storedCookieEcho.cookie = cookieParam.cookie
